@@ -2,7 +2,7 @@
    Escaper::expectation_suffix) and for a whole test (Outcome::generate_testcase, create flavour).  Definitions only. *)
 From Coq Require Import List NArith Bool.
 Import ListNotations.
-From SV Require Import Utf8 gen_Unicode Escape ExpGrammar Rules LineParser.
+From SV Require Import Utf8 gen_Unicode Escape ExpGrammar Rules Template LineParser.
 Local Open Scope N_scope.
 
 Definition ends_with_lf (line : list N) : bool := match rev line with 10 :: _ => true | _ => false end.
@@ -16,6 +16,30 @@ Definition expectation_line (m : mode) (line : list N) : text :=
   else let t := text_of content in
        if negb (ends_with_lf line) then t ++ S_NOEOL
        else if needs_kind content then t ++ S_EQUAL else t.
+
+(* ---------- the guards of the generator (Outcome::generate_expectation_line, guard_no_eol_suffix) ----------
+   [expectation_line] is the plain writer.  Three shapes of its result would be read back as something else; the generator
+   writes them with one character as an escape sequence:
+   - an escaped rendering that ends in ` (no-eol)` (the escaped rule drops that ending): the final `)` becomes `\x29`;
+   - a first line after the shell expression that starts with `> `, and -- Cram -- any line that starts with `$ `: the whole
+     content in escaped notation, the first character as `\xHH` (rendered by giving the writer an unprintable first byte). *)
+Definition X29 : list N := [92; 120; 50; 57].
+Definition guard_noeol (t : text) : text :=
+  match strip_suffix S_NOEOL t with Some h => h ++ [32; 40; 110; 111; 45; 101; 111; 108] ++ X29 | None => t end.
+Definition written_line (m : mode) (line : list N) : text :=
+  let content := trim_newlines line in
+  if has_unprintable m content then guard_noeol (escaped_printable m content) ++ S_ESCAPED else expectation_line m line.
+Definition guarded_line (first cram : bool) (m : mode) (line : list N) : text :=
+  let w := written_line m line in
+  if (first && starts_with P_GT w) || (cram && starts_with P_DOLLAR w) then
+    match trim_newlines line with
+    | c :: rest => guard_noeol ([92; 120; hexd (c / 16); hexd (c mod 16)] ++ skipn 4 (escaped_printable m (1 :: rest))) ++ S_ESCAPED
+    | [] => w
+    end
+  else w.
+(* the expectation lines of a generated test: the first one directly follows the shell expression *)
+Definition guarded_lines (cram : bool) (m : mode) (lines : list (list N)) : list text :=
+  match lines with [] => [] | l :: r => guarded_line true cram m l :: map (guarded_line false cram m) r end.
 
 (* does a parsed rule match a line of output (bytes) -- the three kinds the generator produces *)
 Definition rule_matches (r : rule) (line : list N) : bool :=
